@@ -32,8 +32,7 @@ import (
 // Known-finding signatures (see the final report).  When the driver lists a signature as a known
 // open finding, exactly that input class is left out of generation so the search continues behind it.
 const (
-	c11SigProtoName  = "protocol-name-icmpv6-udplite-matches-proto-0"
-	c11SigDeadExit   = "split-at-unreachable-point-leaves-dead-exit-stub"
+	c11SigDeadExit = "split-at-unreachable-point-leaves-dead-exit-stub"
 )
 
 // ---------------------------------------------------------------------------------------------
@@ -518,10 +517,8 @@ type c11Gen struct {
 	portSets []string
 	sets     map[string]*c11Set
 	// all generated rules with the destination leg of their section, for witness packets
-	allRules   []c11RuleAt
-	longLists  bool
-	noProtoNm  bool // known finding: leave out icmpv6/udplite names
-	exclProto  int
+	allRules  []c11RuleAt
+	longLists bool
 }
 
 type c11RuleAt struct {
@@ -584,10 +581,6 @@ func (g *c11Gen) genProtocol(label string, wantPorts, wantICMP bool) *proto.Prot
 	}
 	c := rapid.SampledFrom(cands).Draw(t, label)
 	byName := c.name != "" && rapid.Bool().Draw(t, label+".byName")
-	if byName && (c.name == "icmpv6" || c.name == "udplite") && g.noProtoNm {
-		g.exclProto++
-		byName = false
-	}
 	if byName {
 		return &proto.Protocol{NumberOrName: &proto.Protocol_Name{Name: c.name}}
 	}
@@ -1012,11 +1005,11 @@ func (p c11RefPkt) toVM(rulesHit uint32) bpfvm.PolicyPacket {
 
 type c11Config struct {
 	V6, XDP, FlowLogs, Debug, UseJumps bool
-	SplitEnabled                      bool
-	MaxJumps                          int
-	TrampStride                       int
-	PolIdx, Stride                    int
-	AllowIdx, DenyIdx                 int
+	SplitEnabled                       bool
+	MaxJumps                           int
+	TrampStride                        int
+	PolIdx, Stride                     int
+	AllowIdx, DenyIdx                  int
 }
 
 type c11Built struct {
@@ -1181,7 +1174,6 @@ func c11Bucket(n int) string {
 
 func c11RunCase(t *rapid.T, rec *ev.Recorder) {
 	g := &c11Gen{t: t}
-	g.noProtoNm = ev.Known(c11SigProtoName)
 	cfg := c11Config{}
 	cfg.V6 = rapid.Bool().Draw(t, "ipv6")
 	g.v6 = cfg.V6
@@ -1264,10 +1256,6 @@ func c11RunCase(t *rapid.T, rec *ev.Recorder) {
 		rules.Profiles = g.genProfiles("profiles", 2)
 	}
 	rules.NoProfileMatchID = 0xDEAD
-
-	for i := 0; i < g.exclProto; i++ {
-		rec.Excluded(c11SigProtoName)
-	}
 
 	// IP set ids from the real allocator; contents through the real entry encoders.
 	alloc := idalloc.New()
@@ -1496,8 +1484,10 @@ func TestVerifC11RegressionProfileLogRule(t *testing.T) {
 	}
 }
 
-// Protocol given by one of the API's names that protocolToNumber does not know.
-func TestVerifC11ConfirmProtocolNames(t *testing.T) {
+// Regression (fixed finding protocol-name-icmpv6-udplite-matches-proto-0, /repo 8118528):
+// protocolToNumber mapped the API's protocol names "icmpv6" and "udplite" to 0, so e.g.
+// "allow protocol ICMPv6" never matched an ICMPv6 packet.  Part of the unit's normal run.
+func TestVerifC11RegressionProtocolNames(t *testing.T) {
 	ev.Quiet()
 	for _, tc := range []struct {
 		name string
@@ -1602,13 +1592,13 @@ func TestVerifC11VMSelfTest(t *testing.T) {
 		b.LoadImm64(asm.R1, 0x1122334455667788)
 		b.Mov64(asm.R2, asm.R1)
 		b.Instr(asm.OpClassALU32|asm.ALUOpEndian|asm.OpEndianToBE, asm.R2, 0, 0, 32, "") // R2 = bswap32(0x55667788) = 0x88776655
-		b.Instr(asm.AddImm32, asm.R1, 0, 0, -1, "")                                       // R1 = 0x55667787 (upper half cleared)
+		b.Instr(asm.AddImm32, asm.R1, 0, 0, -1, "")                                      // R1 = 0x55667787 (upper half cleared)
 		b.Instr(asm.XOR64, asm.R2, asm.R1, 0, 0, "")                                     // 0x88776655 ^ 0x55667787 = 0xdd1111d2
 		b.MovImm64(asm.R3, -1)                                                           // 0xffff_ffff_ffff_ffff
 		b.Instr(asm.JumpSGTImm64, asm.R3, 0, 1, 0, "")                                   // -1 s> 0 ? no
 		b.Instr(asm.JumpGTImm64, asm.R3, 0, 1, 0, "")                                    // unsigned: yes, skip next
 		b.MovImm64(asm.R2, 0)
-		b.ShiftLImm64(asm.R2, 4) // 0xdd1111d20
+		b.ShiftLImm64(asm.R2, 4)                      // 0xdd1111d20
 		b.Instr(asm.JumpLTImm32, asm.R3, 0, 1, 5, "") // 32-bit: 0xffffffff < 5 ? no
 		b.AddImm64(asm.R2, 1)
 		b.Mov64(asm.R0, asm.R2)
@@ -1828,13 +1818,6 @@ func TestVerifC11VMSelfTest(t *testing.T) {
 // Once a finding is no longer listed as open (repaired in /repo), its confirmation scenario is
 // part of the unit's normal run; while it is listed as open the driver runs the Confirm test by
 // name instead and these skip.
-func TestVerifC11RegressionProtocolNames(t *testing.T) {
-	if ev.Known(c11SigProtoName) {
-		t.Skip("listed as an open known finding")
-	}
-	TestVerifC11ConfirmProtocolNames(t)
-}
-
 func TestVerifC11RegressionDeadExitStub(t *testing.T) {
 	if ev.Known(c11SigDeadExit) {
 		t.Skip("listed as an open known finding")
